@@ -114,6 +114,11 @@ def judge(run):
     run.obs = obs
     plan = run.plan
     out = []
+    for evt in run.wld.hist:
+        if evt[3] == 'tls-bypass':
+            # once the TLS layer is on the connection nothing may be written underneath it
+            out.append(('clear', 'write-bypasses-tls', '%s wrote %d octets to the TCP socket directly after TLS had been started on it' % (evt[2], evt[6])))
+            break
     run.cells = {}
     for side in ('A', 'P'):
         peer = tc.OTHER[side]
